@@ -85,7 +85,7 @@ def run(tier, seed, twin=False):
 def main(tier, seed):
     """entry point used by ./check C20"""
     py = os.path.join(ROOT, '.venv', 'bin', 'python')
-    env = dict(os.environ, PYTHONPATH=ROOT)
+    env = dict(os.environ, PYTHONPATH=((os.environ['VERIF_REPO'] + os.pathsep) if os.environ.get('VERIF_REPO') else '') + ROOT)
     t0 = time.time()
     out = subprocess.run([py, '-m', 'harness.C20', 'run', tier, str(seed)], cwd=ROOT, env=env, capture_output=True, text=True, timeout=3000)
     tw = subprocess.run([py, '-m', 'harness.C20', 'twin', 'quick', str(seed)], cwd=ROOT, env=env, capture_output=True, text=True, timeout=3000)
